@@ -194,8 +194,39 @@ def gen_join_case(rng):
     return {"kind": "joins", "stmts": stmts, "ni": 2}
 
 
+HCOMPS = [("Id_1", "Integer", "Identifier", False), ("Id_2", "String", "Identifier", False), ("Me_1", "Number", "Measure", True)]
+
+
+def gen_defs_case(rng):
+    """definitions shared by several independent statements, scalars flowing into operator calls and clauses"""
+    k = rng.choice([2, 3, 5])
+    pool = [
+        # one hierarchical ruleset with '=' and other rules, used by hierarchy and by check_hierarchy (independent statements)
+        ["define hierarchical ruleset hr (variable rule Id_2) is A = B + C errorcode \"e1\"; A >= B errorcode \"e2\"; D <= A errorlevel 2 end hierarchical ruleset",
+         "H <- hierarchy(IN_1, hr rule Id_2 non_null all)", "V <- check_hierarchy(IN_1, hr rule Id_2 partial_null all)", f"T <- IN_1 * {k}"],
+        ["define hierarchical ruleset hr (variable rule Id_2) is A = B + C; B > C end hierarchical ruleset",
+         "V1 <- check_hierarchy(IN_1, hr rule Id_2 always_zero all_measures)", "H1 := hierarchy(IN_1, hr rule Id_2 partial_zero computed)", "H2 <- H1 + 1",
+         "V2 <- check_hierarchy(IN_1, hr rule Id_2 non_zero invalid)"],
+        # one datapoint ruleset used twice
+        ["define datapoint ruleset dpr (variable Me_1) is r1: Me_1 > 0 errorcode \"neg\"; r2: Me_1 < 100 end datapoint ruleset",
+         "P <- check_datapoint(IN_1, dpr all)", "Q <- check_datapoint(IN_1[filter Id_1 > 1], dpr invalid)", f"R <- IN_1 + {k}"],
+        # a computed scalar passed to a scalar-typed operator parameter, used in clauses and conditions
+        [f"define operator scale (d dataset, f number) returns dataset is d * f end operator", f"sc := {k} + 0.5", "A <- scale(IN_1, sc)", "B <- scale(A, 2)", "C <- IN_1[calc Me_2 := Me_1 * sc]"],
+        [f"lim := {k}", "F <- IN_1[filter Me_1 > lim]", "G <- if IN_1 > lim then IN_1 else IN_1 * lim", "N <- nvl(IN_1, lim)", "sel <- IN_1[sub Id_1 = lim]" if k in (2, 3) else "K <- IN_1[calc Me_3 := between(Me_1, 0, lim)]"],
+        [f"define operator top (d dataset, n integer default 1) returns dataset is d[filter Id_1 <= n] end operator", f"nn := {min(k, 3)}", "T1 <- top(IN_1, nn)", "T2 <- top(IN_1)", "cnt <- count(T1)"],
+    ]
+    stmts = rng.choice(pool)
+    return {"kind": "defs", "stmts": stmts, "ni": 1}
+
+
 def run_gen(case, emit, rng, tier):
     from vf import eng
+    if case["kind"] == "defs":
+        st = eng.structures(eng.mkds("IN_1", HCOMPS))
+        rows = [(i, c, float(v)) for i in (1, 2, 3) for c, v in zip("ABCD", (10 + i, 4, 6 + i % 2, 9))]
+        dfs = {"IN_1": eng.mkdf(["Id_1", "Id_2", "Me_1"], rows)}
+        compare_orders(case["stmts"], {"data_structures": st, "datapoints": dfs}, {"data_structures": st}, "gen:defs", emit, rng, tier, {"gen": case}, mech_tag="defs/")
+        return
     if case["kind"] == "joins":
         st = eng.structures(*[eng.mkds(f"IN_{i + 1}", JCOMPS) for i in range(2)])
         dfs = {f"IN_{i + 1}": eng.mkdf(["Id_1", "Me_1", "Me_2"], [(k, float(i * 10 + k), float(100 * (i + 1) + k)) for k in (1, 2, 3)]) for i in range(2)}
@@ -245,6 +276,7 @@ def run_shard(spec, emit):
         run_gen(gen_case(rng), emit, rng, spec["tier"])
         for _ in range(3):
             run_gen(gen_join_case(rng), emit, rng, spec["tier"])
+        run_gen(gen_defs_case(rng), emit, rng, spec["tier"])
     for c in rider.corpus_slice(spec, quick_fraction=6, tag="C12"):
         if not bud.ok():
             emit({"v": "inc", "why": "cut by wall-clock budget"})
